@@ -405,6 +405,13 @@ func (a *Arith) binopInt(op token.Token, x, y *Term, ii intInfo, yii intInfo) ar
 		if y.IsConst() && y.Val.Sign() == 0 {
 			return arithRes{T: x}
 		}
+		if x.IsConst() && !y.IsConst() {
+			x, y = y, x
+		}
+		if y.IsConst() && y.Val.Sign() > 0 && !ii.Signed {
+			// x | c == (x &^ c) + c
+			return arithRes{T: IAdd(ISub(x, intAndConst(x, y.Val)), IntBig(y.Val))}
+		}
 		return arithRes{Err: fmt.Errorf("int theory: | is not expressible")}
 	}
 	return arithRes{Err: fmt.Errorf("int theory: unsupported operator %s", op)}
@@ -515,6 +522,14 @@ func (a *Arith) mathBin(op token.Token, x, y *Term) (*Term, error) {
 		}
 		if x.IsConst() && x.Val.Sign() >= 0 {
 			return intAndConst(y, x.Val), nil
+		}
+	case token.OR:
+		// x | c == (x &^ c) + c for a non-negative x
+		if x.IsConst() && !y.IsConst() {
+			x, y = y, x
+		}
+		if y.IsConst() && y.Val.Sign() >= 0 {
+			return IAdd(ISub(x, intAndConst(x, y.Val)), IntBig(y.Val)), nil
 		}
 	}
 	return nil, fmt.Errorf("int theory: operator %s not expressible in contract", op)
